@@ -71,7 +71,7 @@ def build(code_a, code_b, layout, nenum, cls_enum, fshape, ignore_which, ser=(0,
     elif ignore_which == 2:
         ignore = ["::".join(p1 + (b["name"],))]
     exp = {"classes": [(d, "::".join(d["path"] + (d["name"],)) in ignore) for d in (a, b)], "enums": [(p0, n, v) for n, v in enums],
-           "funcs": [(p1, n) for n in dict.fromkeys(f[1] for f in funcs)], "ignore": ignore}
+           "funcs": [(p1, n) for n in dict.fromkeys(f[1] for f in funcs)], "func_decls": funcs, "ignore": ignore}
     return text, exp
 
 
@@ -158,6 +158,21 @@ def check(code_a, code_b, layout, nenum, cls_enum, fshape, ignore_which, ser=(0,
     text, exp = build(code_a, code_b, layout, nenum, cls_enum, fshape, ignore_which, ser)
     files, cpp, w = pipe.matlab(text, ignore=exp["ignore"] or [""], boost=boost)
     problems = check_census(text, exp, files, cpp, "content tree", boost)
+    # every file is produced once (a second emission of the same path overwrites the first on disk)
+    order = []
+    pipe.flatten_content(w.content, "", {}, order)
+    dup = sorted({p_ for p_ in order if order.count(p_) > 1 and p_.endswith(".m")})          # (the MEX source is written twice by design: headers, then the whole file)
+    if dup:
+        problems.append("emitted more than once: %r" % dup)
+    # every declared overload of a free function is offered by its one function file
+    for p_, n in exp["funcs"]:
+        m = files.get(pkg(p_) + n + ".m")
+        if m is None:
+            continue
+        want_ar = sorted(len(v) for r_, n_, a_ in exp.get("func_decls", []) if n_ == n for v in ms.expand(a_))
+        got_ar = sorted(int(x) for x in re.findall(r"length\(varargin\) == (\d+)", m))
+        if want_ar and got_ar != want_ar:
+            problems.append("%s offers arities %r, declared overloads give %r" % (pkg(p_) + n + ".m", got_ar, want_ar))
     # second reading: through the real generate_content on the recorder file system (path assembly)
     with patched_io() as rec:
         w2 = pipe.new_matlab_wrapper(ignore=exp["ignore"] or [""], boost=boost)
